@@ -754,7 +754,15 @@ class UnionT(Node):
         for klass in type(x).__mro__:
             if klass in by_origin:
                 return by_origin[klass]
-        return None
+        # "a subclass of some union case": tuple / dict / frozenset are subclasses of the abstract collections by registration (defect #103)
+        virtual = []
+        for origin, c in by_origin.items():
+            try:
+                if isinstance(origin, type) and issubclass(type(x), origin):
+                    virtual.append(c)
+            except TypeError:
+                pass
+        return virtual[0] if len(virtual) == 1 else None     # several registered ancestors: there is no mro to break the tie, nothing is documented
 
     def dump(self, x):
         c = self.dump_case(x)
